@@ -8,7 +8,7 @@ from .. import cfg as cfgmod
 from .. import spec_xlsform as spec
 from ..astutil import call_name, const_str, guard_texts, guards_of, kw
 from ..callgraph import CallGraph
-from ..interp import ClassVal, Raised
+from ..interp import ClassVal, NodeVal, Obj, Raised
 from ..loader import AnalysisError, ancestors, norm, parent, walk_own
 from ..report import Rule
 from .c19 import _row_loop
@@ -67,6 +67,14 @@ def _helper_kind(ctx, w2j, expr) -> str | None:
                 return "O"
             return "?"
     return None
+
+
+def rowd0_label(has):
+    return "GROUP LABEL" if has else None
+
+
+def rowd0_hint(has):
+    return "GROUP HINT" if has else None
 
 
 def run(ctx):
@@ -140,6 +148,52 @@ def run(ctx):
                 got = f"raises {e.exc_name}"
             r1.check(got is want, f"row loop:count helper guard[{text!r}]", f"a `<repeat>_count` node is {'created' if want else 'not needed'} for this repeat_count cell", w2j.loc(st),
                      why_fail=f"guard `{norm(guard)[:60]}` evaluates to {got}")
+    # the table-list label helper: the group's label AND hint move onto a generated note placed first in the group, for
+    # every presence pattern of the two cells (the statement that builds the helper is evaluated as a block)
+    for nid, ev in events.items():
+        if ev != "L":
+            continue
+        st = g.nodes[nid].stmt
+        blk = next((a for a in ancestors(st) if isinstance(a, ast.If) and a is not loop and any(("label" in norm(t).lower() or "hint" in norm(t).lower()) for t in [a.test])), None)
+        if blk is None:
+            r1.fail("row loop:table-list label helper", "the helper is created under a test of the group's label / hint", w2j.loc(st))
+            continue
+        loads = {n.id for n in ast.walk(blk) if isinstance(n, ast.Name) and isinstance(n.ctx, ast.Load)}
+        stores = {n.id for n in ast.walk(blk) if isinstance(n, ast.Name) and isinstance(n.ctx, ast.Store)}
+        free = {n for n in loads if n not in stores and w2j.module.imports.get(n) is None and n not in w2j.module.functions and n not in w2j.module.assigns and n not in ("str", "len", "dict", "list")}
+        lists = {c.func.value.id for c in ast.walk(blk) if isinstance(c, ast.Call) and isinstance(c.func, ast.Attribute) and c.func.attr in ("append", "insert") and isinstance(c.func.value, ast.Name)}
+        for has_label, has_hint in ((True, False), (False, True), (True, True), (False, False)):
+            rowd = {"name": "g", "type": "group", "control": {"appearance": "field-list"}}
+            if has_label:
+                rowd["label"] = "GROUP LABEL"
+            if has_hint:
+                rowd["hint"] = "GROUP HINT"
+            kids = []
+            env = {}
+            for nm in free:
+                env[nm] = kids if nm in lists else (7 if "number" in nm or nm in ("i", "idx") else rowd)
+            itb = ctx.interp("C04.R1")
+            itb.reset([])
+            try:
+                itb.exec_block([blk], env, w2j.module)
+                err = None
+            except Raised as e:
+                err = f"raises {e.exc_name}{e.exc_args}"
+            desc = f"label={'yes' if has_label else 'no'} hint={'yes' if has_hint else 'no'}"
+            if err:
+                r1.fail(f"row loop:table-list label helper[{desc}]", f"the helper block evaluates ({err})", w2j.loc(blk))
+                continue
+            if has_label or has_hint:
+                h = kids[0] if len(kids) == 1 and isinstance(kids[0], dict) else {}
+                ok = h.get("type") == "note" and str(h.get("name", "")).startswith("generated_table_list_label_") \
+                    and h.get("label") == rowd0_label(has_label) and h.get("hint") == rowd0_hint(has_hint) and "label" not in rowd and "hint" not in rowd
+                r1.check(ok, f"row loop:table-list label helper[{desc}]", "one generated note carries the group's label and hint, which leave the group row", w2j.loc(blk),
+                         why_fail=f"children={kids!r} group row keeps {sorted(k for k in ('label', 'hint') if k in rowd)}")
+            else:
+                r1.check(kids == [], f"row loop:table-list label helper[{desc}]", "no helper note without label and hint", w2j.loc(blk), why_fail=f"children={kids!r}")
+    # disabled rows produce nothing - also the second time the same dict is converted (rows handed to the loop are copies)
+    from .c14 import fresh_rows_obligations
+    fresh_rows_obligations(ctx, r1, "C04.R1")
     allowed = {("R",), ("M",), ("C", "R"), ("L", "R"), ("C", "L", "R"), ("H", "R"), ("R", "O"), ("H", "R", "O")}
     skip_markers = ("aliases.yes_no.get(disabled)", "not row", "not (constants.NAME in row or constants.LABEL in row)", "settings_type", "end_control_parse")
     # per exit edge
@@ -308,6 +362,28 @@ def run(ctx):
     for legacy, canon in (("image", "photo"), ("add image prompt", "photo"), ("add photo prompt", "photo"), ("add audio prompt", "audio")):
         r4.check(tam.get(legacy) == canon and qtd.get(canon) is not None, f"type alias {legacy!r}", f"is rewritten to {canon!r}, the spelling the parameter handling is keyed on", "pyxform/aliases.py",
                  why_fail=f"got {tam.get(legacy)!r}")
+    # which rows are user-visible: a question of a visible type gets its control unless it is computed (a calculation
+    # or a trigger) AND carries neither label nor hint; a `calculate` row never gets one.  All 32 combinations.
+    import itertools as _it4
+    xc = qcls.methods["xml_control"]
+    iq = repo.cls("pyxform.question:InputQuestion")
+    CONTROL = NodeVal("input")
+    n_vis = 0
+    for typ, has_calc, has_trig, has_label, has_hint in _it4.product(("text", "calculate"), (False, True), (False, True), (False, True), (False, True)):
+        stub = Obj(None, {"get_trigger_values_for_question_name": lambda i, a, k, n: []}, name="survey")
+        q = Obj(iq, {"name": "q", "type": typ, "bind": ({"type": "string", "calculate": "1+1"} if has_calc else {"type": "string"}), "trigger": ("${t}" if has_trig else None),
+                     "label": ("L" if has_label else None), "hint": ("H" if has_hint else None), "media": None, "parent": None}, name="q")
+        itv = ctx.interp("C04.R4", hooks={"fnname:build_xml": lambda i, a, k, n: CONTROL})
+        itv.reset([])
+        try:
+            got = itv.call_function(xc, [q], {"survey": stub}, None, xc.node)
+        except Raised as e:
+            got = f"raises {e.exc_name}"
+        want_control = typ != "calculate" and not ((has_calc or has_trig) and not (has_label or has_hint))
+        n_vis += 1
+        desc = f"type={typ} calculation={'yes' if has_calc else 'no'} trigger={'yes' if has_trig else 'no'} label={'yes' if has_label else 'no'} hint={'yes' if has_hint else 'no'}"
+        r4.check((got is CONTROL) if want_control else (got is None), f"Question.xml_control[{desc}]",
+                 "has a body control" if want_control else "has no body control (not user-visible)", xc.loc(), why_fail=f"got {got!r}")
     rules.append(r4)
 
     # ------------------------------------------------------------------ R5
